@@ -20,9 +20,9 @@
 (***************************************************************************)
 EXTENDS CalFlow, TraceCommon
 
-VARIABLES st, ref, solvedOk, calOk, refOk, l
+VARIABLES st, ref, solvedOk, calOk, refOk, noisy, l
 
-tvars == <<st, ref, solvedOk, calOk, refOk, l>>
+tvars == <<st, ref, solvedOk, calOk, refOk, noisy, l>>
 
 SeqToSet(s) == {s[i] : i \in 1..Len(s)}
 
@@ -43,13 +43,14 @@ OpOf(ev) ==
                              nf |-> ev.nf]
       [] ev.e = "SetF"   -> [kind |-> "SetF", valid |-> (ev.valid = 1)]
       [] ev.e = "SetZ0"  -> [kind |-> "SetZ0"]
+      [] ev.e = "SetMErr" -> [kind |-> "SetMErr"]
       [] ev.e = "Add"    -> [kind |-> "Add", std |-> FromStd(ev.std), form |-> ev.form,
                              ar |-> ev.ar, ac |-> ev.ac]
       [] ev.e = "Solve"  -> [kind |-> "Solve", ident |-> ev.ident]
       [] ev.e = "AddCal" -> [kind |-> "AddCal"]
       [] ev.e = "Apply"  -> [kind |-> "Apply", mr |-> ev.mr, mc |-> ev.mc]
 
-Kinds == {"Alloc", "SetF", "SetZ0", "Add", "Solve", "AddCal", "Apply"}
+Kinds == {"Alloc", "SetF", "SetZ0", "SetMErr", "Add", "Solve", "AddCal", "Apply"}
 
 (* the callback protocol: on failure exactly one non-warning invocation of *)
 (* the stated category with a one-line message, on success none            *)
@@ -60,11 +61,11 @@ CallbackOK(ev, o) ==
 
 Matches(ev, o) == (ev.ok = 1) = o.ok /\ ev.err = o.err
 
-TInit == st = NoState /\ ref = NoState /\ solvedOk = FALSE /\ calOk = FALSE /\ refOk = FALSE /\ l = 1
+TInit == st = NoState /\ ref = NoState /\ solvedOk = FALSE /\ calOk = FALSE /\ refOk = FALSE /\ noisy = FALSE /\ l = 1
 
 TReset ==
     /\ TraceLog[l].e = "Reset"
-    /\ st' = NoState /\ ref' = NoState /\ solvedOk' = FALSE /\ calOk' = FALSE /\ refOk' = FALSE
+    /\ st' = NoState /\ ref' = NoState /\ solvedOk' = FALSE /\ calOk' = FALSE /\ refOk' = FALSE /\ noisy' = FALSE
 
 TCall ==
     LET ev == TraceLog[l]
@@ -77,6 +78,13 @@ TCall ==
                         <<l, ev.e, "err", {<<o.ok, o.err>> : o \in O}>>)
              /\ Explain(\E o \in O : Matches(ev, o) /\ CallbackOK(ev, o),
                         <<l, ev.e, "cb", {<<o.ok, o.cat>> : o \in O}>>)
+             /\ \* the handles passed: the predefined zero exactly where the
+                \* abstract standard has a zero, a cal-kit handle elsewhere
+                (ev.e = "Add") =>
+                   Explain(/\ Len(ev.h) = Len(ev.std.vals)
+                           /\ \A i \in 1..Len(ev.h) :
+                                 (ev.std.vals[i] = "Z") = (ev.h[i] = 0),
+                           <<l, "Add", "handles", ev.std.vals>>)
              /\ \* harness oracle cross-check on accepted standards
                 (ev.e = "Add" /\ ev.ok = 1) =>
                    LET o == CHOOSE o \in O : Matches(ev, o)
@@ -90,12 +98,18 @@ TCall ==
              /\ \* ... and corrects an independent device measurement
                 (ev.e = "Apply" /\ calOk /\ ApplyAccepts(st.r, st.c)) =>
                    Explain(ev.ok = 1, <<l, "Apply", "applies", 1>>)
-             /\ (ev.e = "Apply" /\ ev.ok = 1 /\ calOk) =>
+             /\ \* (with noisy readings -- a life whose SetMErr event says so --
+                \* the device is only recovered to within the noise)
+                (ev.e = "Apply" /\ ev.ok = 1 /\ calOk /\ ~noisy) =>
                    Explain(ev.x.recovered = 1, <<l, "Apply", "recovered", 1>>)
              /\ LET o == CHOOSE o \in O : Matches(ev, o)
                 IN /\ st' = o.st
                    /\ ref' = IF ev.e = "Alloc" /\ st.alive THEN st ELSE ref
                    /\ refOk' = IF ev.e = "Alloc" /\ st.alive THEN calOk ELSE refOk
+                   /\ noisy' =
+                        CASE ev.e = "Alloc" -> FALSE
+                          [] ev.e = "SetMErr" /\ ev.ok = 1 -> (ev.noisy = 1)
+                          [] OTHER -> noisy
                    /\ calOk' =
                         CASE ev.e = "AddCal" /\ ev.ok = 1 -> solvedOk
                           [] ev.e = "Alloc" -> FALSE
@@ -111,8 +125,9 @@ TSaveEq ==
     LET ev == TraceLog[l]
     IN /\ ev.e = "SaveEq"
        /\ Explain(ev.ok = 1, <<l, "SaveEq", "ok", 1>>)
-       /\ calOk => Explain(ev.x.satisfies = 1, <<l, "SaveEq", "satisfies", 1>>)
-       /\ UNCHANGED <<st, ref, solvedOk, calOk, refOk>>
+       /\ (calOk /\ ~noisy) =>
+             Explain(ev.x.satisfies = 1, <<l, "SaveEq", "satisfies", 1>>)
+       /\ UNCHANGED <<st, ref, solvedOk, calOk, refOk, noisy>>
 
 -----------------------------------------------------------------------------
 (* C17: the relation claimed between the reference life (ref) and the      *)
@@ -139,7 +154,7 @@ Related(rel, ev) ==
       [] rel = "order" ->
            /\ SameShape(ref, st)
            /\ IsPermutationOf(ref.stds, st.stds)
-      [] rel \in {"scale", "unrelated", "split"} ->
+      [] rel \in {"scale", "unrelated", "split", "resolve"} ->
            /\ SameShape(ref, st)
            /\ ref.stds = st.stds
       [] rel = "e12ue14" ->
@@ -167,13 +182,13 @@ TCompare ==
        /\ (refOk /\ calOk) =>
              /\ Explain(ev.both = 1, <<l, "Compare", "both", 1>>)
              /\ Explain(ev.x.same = 1, <<l, "Compare", "same", 1>>)
-       /\ UNCHANGED <<st, ref, solvedOk, calOk, refOk>>
+       /\ UNCHANGED <<st, ref, solvedOk, calOk, refOk, noisy>>
 
 (* a calibration of another life added to the same vnacal_t: not part of  *)
 (* this life's state                                                      *)
 TNote ==
     /\ TraceLog[l].e = "Unrelated"
-    /\ UNCHANGED <<st, ref, solvedOk, calOk, refOk>>
+    /\ UNCHANGED <<st, ref, solvedOk, calOk, refOk, noisy>>
 
 (* end of an episode.  The number of allocations made inside the library  *)
 (* that are still live after vnacal_free (field live) bears on C03 only   *)
@@ -182,7 +197,7 @@ TNote ==
 TEnd ==
     LET ev == TraceLog[l]
     IN /\ ev.e = "End"
-       /\ st' = NoState /\ ref' = NoState /\ solvedOk' = FALSE /\ calOk' = FALSE /\ refOk' = FALSE
+       /\ st' = NoState /\ ref' = NoState /\ solvedOk' = FALSE /\ calOk' = FALSE /\ refOk' = FALSE /\ noisy' = FALSE
 
 TNext ==
     /\ l <= Len(TraceLog)
